@@ -58,6 +58,7 @@ type Drawing struct {
 	W     float64    `json:"w"`
 	H     float64    `json:"h"`
 	Items []DrawItem `json:"items"`
+	Post  int        `json:"post,omitempty"` // after drawing: 1 Fit(2), 2 Clip, 3 Transform (shear), 4 Fit(0)+Transform
 }
 
 // DrawItem is one drawing command.
